@@ -4,9 +4,9 @@ package main
 
 import (
 	"fmt"
-	"os"
 	"go/token"
 	"go/types"
+	"os"
 	"sort"
 
 	"golang.org/x/tools/go/ssa"
@@ -39,13 +39,13 @@ func (a *a6) decodeReach() map[*ssa.Function]bool {
 }
 
 type capCtx struct {
-	a     *a6
-	reach map[*ssa.Function]bool
-	memoP map[*ssa.Parameter]int // 0 unknown, 1 in progress, 2 capped, 3 not
-	memoF map[string]int
-	memoR map[*ssa.Function]int
+	a       *a6
+	reach   map[*ssa.Function]bool
+	memoP   map[*ssa.Parameter]int // 0 unknown, 1 in progress, 2 capped, 3 not
+	memoF   map[string]int
+	memoR   map[*ssa.Function]int
 	phiBusy map[*ssa.Phi]bool
-	why   string
+	why     string
 }
 
 // boundedLeaf: value is bounded by construction.
